@@ -23,6 +23,14 @@ func init() {
 	// C05: session state persistence / Session Present
 	props["C05"] = &sessProp{id: "C05", gen: func(r *Rng, i int, tier string) *sessCase {
 		c := &sessCase{Preempt: true}
+		if i%30 == 6 {
+			doubleRestart(r, c)
+			return c
+		}
+		if i%30 == 18 {
+			resumeOutlivesRestoredExpiry(r, c)
+			return c
+		}
 		v5mask := r.Intn(4) // which client ids speak MQTT 5 in this history
 		timed := i%8 == 7
 		n := 4 + r.Intn(9)
@@ -147,6 +155,33 @@ func restartWithPendingWill(r *Rng, c *sessCase) {
 	c.Ops = append(c.Ops, sessOp{Op: "restart"}, sessOp{Op: "wait", Ms: 400}, sessOp{Op: "pub", T: 0}, sessOp{Op: "wait", Ms: 2500})
 }
 
+// an offline v5 session with a session expiry that is far away lives through TWO graceful restarts without a reconnect
+// in between: what the first start-up restored must be persisted again, unchanged, by the second shutdown
+func doubleRestart(r *Rng, c *sessCase) {
+	c.Ops = append(c.Ops, sessOp{Op: "connect", ID: 0, V5: true, Expiry: 4294967295, WillDelay: -2}, sessOp{Op: "sub", ID: 0, T: r.Intn(2)})
+	if r.Bool() {
+		c.Ops = append(c.Ops, sessOp{Op: "drop", ID: 0})
+	} else {
+		c.Ops = append(c.Ops, sessOp{Op: "disc", ID: 0, Expiry: -1})
+	}
+	c.Ops = append(c.Ops, sessOp{Op: "pub", T: 0}, sessOp{Op: "stop"}, sessOp{Op: "restart"})
+	if r.Bool() {
+		c.Ops = append(c.Ops, sessOp{Op: "pub", T: 1})
+	}
+	c.Ops = append(c.Ops, sessOp{Op: "stop"}, sessOp{Op: "restart"}, sessOp{Op: "pub", T: 0}, sessOp{Op: "pub", T: 1},
+		sessOp{Op: "connect", ID: 0, V5: true, Expiry: 4294967295, WillDelay: -2}, sessOp{Op: "pub", T: 0})
+}
+
+// a v5 session with subscriptions and a SHORT session expiry is offline across a restart and comes back before the
+// expiry is due: the timer restored at start-up must be cancelled by the resume - when its time passes the session is
+// live, keeps receiving, and the next CONNECT finds it
+func resumeOutlivesRestoredExpiry(r *Rng, c *sessCase) {
+	c.Ops = append(c.Ops, sessOp{Op: "connect", ID: 0, V5: true, Expiry: 2, WillDelay: -2}, sessOp{Op: "sub", ID: 0, T: 0},
+		sessOp{Op: "drop", ID: 0}, sessOp{Op: "stop"}, sessOp{Op: "restart"},
+		sessOp{Op: "connect", ID: 0, V5: true, Expiry: 2, WillDelay: -2}, sessOp{Op: "wait", Ms: 2600}, sessOp{Op: "pub", T: 0},
+		sessOp{Op: "connect", ID: 0, V5: true, Expiry: 2, WillDelay: -2}, sessOp{Op: "pub", T: 0})
+}
+
 func genPopulation(r *Rng, c *sessCase, v5mask int, wills bool, timed bool) {
 	connected := map[int]bool{}
 	canSetExpiry := map[int]bool{}
@@ -220,6 +255,14 @@ func init() {
 			restartWithPendingWill(r, c)
 			return c
 		}
+		if i%20 == 3 {
+			doubleRestart(r, c)
+			return c
+		}
+		if i%20 == 13 {
+			resumeOutlivesRestoredExpiry(r, c)
+			return c
+		}
 		v5mask := r.Intn(4)
 		genPopulation(r, c, v5mask, i%3 == 2, i%5 == 4)
 		c.Ops = append(c.Ops, sessOp{Op: "stop"})
@@ -276,6 +319,11 @@ func init() {
 		if i%30 == 11 {
 			// a slow reader with a backlog on its way is taken over: it must still be TOLD (a DISCONNECT it can decode)
 			return &sessCase{Stalled: 4}
+		}
+		if i%30 == 17 {
+			c := &sessCase{Preempt: true}
+			resumeOutlivesRestoredExpiry(r, c)
+			return c
 		}
 		c := &sessCase{Preempt: r.Chance(65)}
 		v5mask := r.Intn(4)
